@@ -112,6 +112,12 @@ impl Prop for C10Prop {
         }
         l.calls = gen_calls(rng);
         l.extra_polls = *rng.pick(&[0usize, 1, 2, 5]);
+        if fe == Fe::RdIo && rng.chance(1, 3) {
+            // an arrival schedule with interrupted system calls: invisible by io::Read's contract
+            let len = build_stream(&l.segs).stream.len();
+            let k = rng.range(1, 4);
+            l.src = gen::gen_src_faults(rng, len, k, &[crate::fe::SrcFault::Interrupted]);
+        }
         Scenario::Link(l)
     }
 
@@ -124,7 +130,16 @@ impl Prop for C10Prop {
         count_wire_faults(st, &built);
         let stream = &built.stream;
         st.bump("cfg.fe", l.fe.name());
-        let ss = SrcState::new(stream, &[]);
+        // only interruptions are part of this property's arrival schedules (everything else is C11)
+        let src: Vec<(usize, crate::fe::SrcFault)> = if l.fe == Fe::RdIo {
+            l.src.iter().filter(|(_, f)| matches!(f, crate::fe::SrcFault::Interrupted)).cloned().collect()
+        } else {
+            Vec::new()
+        };
+        if !src.is_empty() {
+            st.bump("probe", "interrupted-arrivals");
+        }
+        let ss = SrcState::new(stream, &src);
         let plan = AppPlan { calls: &l.calls, extra_polls: l.extra_polls, alloc_fail: 0 };
         let (obs, made) = fe::run_reader(l.fe, l.buf, &ss, &plan, true);
         for c in &made {
